@@ -10,9 +10,10 @@ func verifDigit(c byte) bool { return c >= '0' && c <= '9' }
 
 // verifToken builds a well-formed JSON scalar token of total length L (parameter) whose shape is a
 // concrete choice and whose bytes are symbolic:
-//   shape 0: a string  "…"  with L-2 content bytes from digits, sign, blank, junk, slash, dot
-//   shape 1: a bare JSON number of L bytes (grammar enforced below)
-//   shape 2: null / true / false (only when L matches)
+//
+//	shape 0: a string  "…"  with L-2 content bytes from digits, sign, blank, junk, slash, dot
+//	shape 1: a bare JSON number of L bytes (grammar enforced below)
+//	shape 2: null / true / false (only when L matches)
 func verifToken() []byte {
 	L := symx.Param("len", 3)
 	switch symx.Concrete(symx.Int("shape"), 0, 2) {
